@@ -229,7 +229,7 @@ PROPS = {
                 "property segment, section names last in .shstrtab, segment bias) whose answers are known by construction; and the same generated "
                 "images loaded by a live target (whole, split r / r-x, first page only, r-x + rw) and read from its memory next to the answers from "
                 "the file. Distinct = (class+endianness, build-id strategy or "
-                "error chain, soname strategy or error chain, size bucket). Generated images also with a loadable segment that begins at a non-zero file offset (p_vaddr − p_offset stays the link base).",
+                "error chain, soname strategy or error chain, size bucket). Generated images also with a loadable segment that begins at a non-zero file offset (p_vaddr − p_offset stays the link base). A case that does not come back within 45 s ends the run (HANG <case id>) and is reported as a violation with that case as replay.",
         "expected_tags": ["kind.file", "class.64", "class.32", "endian.be", "header.err", "buildid.note", "buildid.section", "buildid.texthash", "buildid.err",
                           "soname.phdr", "soname.section", "soname.err", "kind.wellformed", "kind.proc", "proc.consistent"],
         "theorem_namespace": "Elf.",
@@ -341,7 +341,7 @@ PROPS = {
                 "2^61, p_vaddr that under/overflows, dynamic entries / r_debug / link_map / names ending at unreadable memory, no DT_NULL) through the real "
                 "write_dso_debug_stream under a 3 s watchdog; whole dumps of targets mapping files with hostile names (non-ASCII, spaces, ' (deleted)', `.so.1.2.3é4`, "
                 "`/SYSVab`) and files from /dev/shm watched with inotify; the whole live option matrix with crash registers unmapped / at the top of the address space. "
-                "Distinct = distinct (kind, scenario, outcome) / parsed versions. Hostile linker data also with program-header counts beyond what an ELF header can announce (65535 … 74000) over a 4 MiB readable region.",
+                "Distinct = distinct (kind, scenario, outcome) / parsed versions. Hostile linker data also with program-header counts beyond what an ELF header can announce (65535 … 74000) over a 4 MiB readable region. Generated modules with a note segment that ends in the middle of the build-id note. A case that does not come back within 45 s ends the run (HANG <case id>) and is reported as a violation with that case as replay.",
         "expected_tags": ["sover", "sover.some", "sover.nonascii", "dso.cyclic", "dso.mulphnum", "dso.dyn-short", "dso.linkmap-short", "dso.vaddr-underflow", "files.devshm-nonelf",
                           "files.sysv-name", "files.sover-name", "dump", "crash.ip.top", "crash.sp.top"],
         "extra_theorems": ["C12_total", "C06_total", "C06_walk_total", "C18_walk_cycle_diverges", "System_settled", "gatherStack_settled", "gatherThread_settled", "gatherApp_settled"],
